@@ -273,6 +273,11 @@ def cases(ctx: core.Ctx) -> list:
             out.append((f"deep:children:{depth}", b'{"1": ' + rec % (b'"children": {"1": {"child_id": 1, "child_type": 1, "description": ' + deep + b"}}") + b"}", None))
             out.append((f"deep:child-value:{depth}", b'{"1": ' + rec % (b'"children": {"1": {"child_id": 1, "child_type": 1, "values": {"2": ' + deep + b"}}}") + b"}", None))
             out.append((f"deep:record:{depth}", b'{"1": ' + deep + b"}", None))
+    # the file exists but cannot be written (read-only file, full disk): whatever load thinks of its content, a write
+    # error is not what it may raise
+    for name, raw in (("null", b"null"), ("zero", b"0"), ("list", b"[]"), ("empty-object", b"{}"), ("empty", b""), ("false", b"false"), ("string", b'""'), ("native", docs["native"]), ("legacy", docs["legacy"])):
+        for exc in (PermissionError(13, "denied"), OSError(28, "no space left")):
+            out.append((f"readonly:{name}:{type(exc).__name__}", raw, {"open-write": exc}))
     # faults at open / read / close
     for op in ("open", "read", "close"):
         for exc in (OSError(5, "I/O error"), PermissionError(13, "denied"), IsADirectoryError(21, "is a dir"), TimeoutError("t")):
